@@ -177,7 +177,18 @@ class Gate:
             if pos >= maxsteps:
                 return "maxsteps"
             for (p, tgt) in preempts:
-                if pos == p:
+                if pos == p and tgt < 0:
+                    # relative target: the (-tgt)-th *other* thread that can run (or whose timed wait can expire); with k other
+                    # threads the targets -1..-k cover every meaningful switch at this position
+                    cand = []
+                    for i in range(len(self.done)):
+                        w = self.waiting.get(i)
+                        timed = w is not None and not w[0] and w[1] is not None and Clock.t < w[1]
+                        if i != cur and not self.done[i] and (self.enabled(i) or (timed and self.blocked_on.get(i) is None)):
+                            cand.append(i)
+                    if cand:
+                        tgt = cand[(-tgt - 1) % len(cand)]
+                if pos == p and tgt >= 0:
                     for i in range(len(self.done)):
                         if tgt == i:
                             w = self.waiting.get(i)
@@ -353,6 +364,30 @@ def gated_thread_factory(target):
             _active.spawn(target, "loop")
 
     return T()
+
+
+def concrete(x, lo, hi):
+    """concretise a symbolic schedule variable known to lie in lo..hi on the main thread by bisection: log2(hi-lo) branch
+    decisions per path, and the search tree still covers every value"""
+    while lo < hi:
+        mid = (lo + hi) // 2
+        if x <= mid:
+            hi = mid
+        else:
+            lo = mid + 1
+    return lo
+
+
+def untraced():
+    """the gated run needs no symbolic tracing (the schedule was concretised before): suspend CrossHair's tracer for its duration"""
+    try:
+        from crosshair.tracers import NoTracing, is_tracing
+        if is_tracing():
+            return NoTracing()
+    except Exception:  # noqa: BLE001
+        pass
+    import contextlib
+    return contextlib.nullcontext()
 
 
 def controlled_now():
